@@ -5,6 +5,7 @@ from sym import fmt, walk
 from callgraph import CallGraph
 from rules.common import adt_base, Anchors, path_calls, ret_kind, arg_locs, arg_loc
 import rules.C11 as C11
+from rules.streams import is_call
 import stdmodel as SM
 
 LEVEL = 'proof'
@@ -392,6 +393,25 @@ def r06_6(ctx, A, chk):
         ctx.check(R, not stores and not em, 'duplicate-path', 'the duplicate-key path of %s still writes %s / calls %s' % (f.path, stores, em), fn=f)
     if n == 0:
         ctx.undecided(R, 'duplicate-path', 'no path of %s recognisable as "the whole key is already on the stack"' % f.path, fn=f)
+    # the empty key can be offered again to a set: its path must be idempotent - what it stores into the builder may not depend on the
+    # builder's previous state (count := 1, not count + 1)
+    m = 0
+    for p in explore(f, max_visits=1, havoc=True):
+        if p.end != 'return' or ret_kind(p.ret()) != 'ok':
+            continue
+        emp = [d for d in p.decisions if is_call(d[2], '::is_empty') and not any(x[0] == 'field' for x in walk(d[2][2][0])) and d[3] == 1]
+        if not emp:
+            continue
+        m += 1
+        bad = []
+        for (k, i, loc, st) in p.stores():
+            if loc[:1] == (1,):
+                v = p.sym.rvalue_at(st['rv'], (k, i))
+                if any(x[0] == 'field' and x[1][0] == 'param' and x[1][2] == 1 for x in walk(v)) or any(x[0] == 'havoc' for x in walk(v)):
+                    bad.append('%s := %s' % ('.'.join(map(str, loc[1:])), fmt(v)[:40]))
+        ctx.check(R, not bad, 'empty-key-idempotent', 'the empty-key path updates builder state from its previous value (%s): offering "" to a set twice (a no-op by contract) leaves a trace' % bad, fn=f)
+    if m == 0:
+        ctx.undecided(R, 'empty-key-idempotent', 'no empty-key path recognised in %s' % f.path, fn=f)
 
 
 def run(ctx):
